@@ -224,7 +224,7 @@ class AddResource(_TableSpec):
     qual = "_context.Context.add_resource"
     properties = ("C03", "C13", "C18", "C02", "C01")
     param_types = {"value": ANY, "name": TSTR, "types": ANY, "description": ANY, "teardown_callback": ANY}
-    modifies = frozenset({"d_has", "d_get", "d_len", "l_len", "l_item", "g:ev_len", "g:ev_item", "g:q_len", "g:q_item", "g:warns",
+    modifies = frozenset({"d_has", "d_get", "d_len", "l_len", "l_item", "g:ev_len", "g:ev_item", "g:q_len", "g:q_item", "g:warns", "g:q_attempts", "fld:source", "fld:topic", "fld:time",
                           "g:owner"})
 
     def requires(self, F):
